@@ -36,8 +36,10 @@ class Scratch:
         if patch:
             rc, out = sh(["git", "apply", os.path.abspath(patch)], cwd=self.dir)
             if rc != 0:
-                self.close()
-                raise RuntimeError("patch does not apply: " + out)
+                rc, out2 = sh(["git", "apply", "-3", os.path.abspath(patch)], cwd=self.dir)
+                if rc != 0 or "with conflicts" in out2:
+                    self.close()
+                    raise RuntimeError("patch does not apply: " + out)
 
     def close(self):
         sh(["git", "-C", "/repo", "worktree", "remove", "--force", self.dir])
@@ -120,7 +122,12 @@ def main():
             meta = json.load(open(os.path.join(d, "meta.json")))
             if only and meta["property"] not in only and name not in only:
                 continue
-            r = run_checks(d, [meta["property"]])
+            try:
+                r = run_checks(d, [meta["property"]])
+            except RuntimeError as ex:
+                rows.append((name, meta["property"], "STALE-PATCH", str(ex)[:80]))
+                print("%-28s %s %-12s %s" % rows[-1], flush=True)
+                continue
             v = r[meta["property"]]
             rows.append((name, meta["property"], v["verdict"], v["mechanisms"]))
             print("%-28s %s %-12s %s" % rows[-1], flush=True)
